@@ -97,3 +97,18 @@ Definition sx_of_model (m : model) : sx := SL [SZ (m_serial m); SL (map sx_of_ch
 Definition sx_of_pdb (p : pdb) : sx := SL (map sx_of_model p).
 End Show.
 
+
+(* defaults used by the translation of `v[0]` (only evaluated under a non-emptiness test) *)
+Definition default_Atom : atom := atom_of_sx (SY "none"%string).
+Definition default_Conformer : conformer := {| c_name := []; c_alt := None; c_mod := None; c_atoms := [] |}.
+Definition default_Residue : residue := {| r_num := 0; r_icode := None; r_confs := [] |}.
+Definition default_Chain : chain := {| ch_id := []; ch_residues := [] |}.
+Definition default_Model : model := {| m_serial := 0; m_chains := [] |}.
+
+(* atoms with their ancestors, nested traversal: ((((atom, conformer), residue), chain), model) *)
+Definition r_awh (r : residue) : list (atom * conformer) := flat_map (fun c => map (fun a => (a, c)) (c_atoms c)) (r_confs r).
+Definition ch_awh (c : chain) : list (atom * conformer * residue) := flat_map (fun r => map (fun h => (h, r)) (r_awh r)) (ch_residues c).
+Definition m_awh (m : model) : list (atom * conformer * residue * chain) := flat_map (fun c => map (fun h => (h, c)) (ch_awh c)) (m_chains m).
+Definition p_awh (p : pdb) : list (atom * conformer * residue * chain * model) := flat_map (fun m => map (fun h => (h, m)) (m_awh m)) p.
+(* the first model, to which the plain structure-level counts refer *)
+Definition first_model_count (f : model -> nat) (p : pdb) : nat := match p with [] => 0 | m :: _ => f m end.
